@@ -90,7 +90,7 @@ class MovingKind(Kind):
 
     def gen(self, rng, tier):
         shapes = [[1], [2], [3], [5], [8], [1, 1], [1, 4], [4, 1], [2, 3], [3, 2], [3, 3], [2, 2, 2], [2, 3, 4], [4, 1, 3], [1, 2, 1, 3]]
-        nrand = 14 if tier == 'quick' else 150
+        nrand = 24 if tier == 'quick' else 150
         for _ in range(nrand):
             nd = rng.randint(1, 3)
             shapes.append([rng.randint(1, 6 if nd < 3 else 4) for _ in range(nd)])
